@@ -19,6 +19,18 @@ CHECKS = {
          "The TypeScript output of generated programs is parsed (syntax, every name declared exactly once, every mentioned name declared) and every JSON document emitted by the compiled Go package for every analysed type is checked as a structural inhabitant of the declaration (exact key sets, optional keys, primitive kinds, null only where admitted, tuple lengths, enum literal sets, Kind/Data shapes, Record key kinds). Exploration.",
          "No tsc offline: TypeScript is judged by the purpose-built parser and inhabitant relation of internal/tsx (two-sided rule: impossible text is a verdict, valid-but-unmodelled text is inconclusive).",
          "DESIGN.md §4 C03"),
+ "C04": ("PBT (rapid, two levels): validator evaluation under a PostgreSQL model (internal/pgx) on Go-emitted documents and type-directed single-point corruptions",
+         "For model files with jsonb columns the generated script is parsed and its PL/pgSQL validators interpreted; every document the compiled Go package emits for the column types must pass the column CHECK (never false, never an error) and up to five type-directed corruptions per document (unknown key, wrong kind, unknown Kind, non-member enum value, wrong fixed-array length) must make it false; the closure of validator calls is checked statically. Exploration.",
+         "PostgreSQL is modelled (internal/pgx: jsonb operators, three-valued logic, left-to-right AND/OR); missing keys and extra keys in the Kind/Data wrapper are not asserted.",
+         "DESIGN.md §4 C04"),
+ "C05": ("PBT (rapid): model-based stateful test — generated CRUD code executed against a schema-enforcing in-memory engine loaded from the generated DDL, compared with a map model after every step",
+         "Generated model files are compiled with the real sqlcrud/gounions outputs and driven by a rapid state machine (insert, selects, update, deletes, link-table delete, COPY-based InsertMany, by-foreign-key / unique / select-key functions) against engine/minipg loaded with the generated create script; results, error classes (unique, foreign key, no rows) and a final scan are compared with a map model mirroring ON DELETE actions; the engine validates tables, columns, placeholders and column order of every statement. Exploration.",
+         "The database is the purpose-built engine/minipg with engine/pq standing in for lib/pq (module unavailable offline); both were property-tested on their own; jsonb CHECKs are evaluated by the pgx interpreter.",
+         "DESIGN.md §4 C05, Appendix B"),
+ "C08": ("PBT (rapid): structural parse of the generated DDL (internal/pgx) vs a reference Go->SQL mapping written from the statement",
+         "Generated model files over all column kinds, tags and directives are translated by the real sql generator; the parsed schema is compared with a reference mapping (table names, column order, SQL types, NOT NULL, serial primary key, enum/length/jsonb/guard CHECKs, composite CREATE TYPE, exactly one FOREIGN KEY per foreign-key field with its ON DELETE action). Exploration.",
+         "Names are plain CamelCase words so that every snake-case convention agrees; where the statement leaves a choice both answers are accepted.",
+         "DESIGN.md §4 C08"),
  "C09": ("PBT (rapid): ground truth from the real encoding/json by executing the analysed package; key-set comparison across analysis / TypeScript / Dart / SQL validator; metamorphic pairs",
          "For union-free programs over every tag spelling and embedding, the compiled package marshals an all-non-zero value of every struct; the key set is compared with Exported()/JSONName() and with the keys parsed out of the TypeScript interface, the Dart fromJson/toJson and the validator's key list; a metamorphic pair (ignored field added/removed/retyped) must leave the three outputs byte-identical. Exploration.",
          "Ground truth is encoding/json itself; Dart/TS/SQL keys are read with the purpose-built parsers (internal/dartx, tsx, pgx).",
@@ -39,6 +51,10 @@ CHECKS = {
          "Every generated random function of every generated program is called 40 times under a reduced maximal stack; results must be well-formed (exported enum constants, non-nil union members, populated containers, skipped fields zero), vary when the type admits more than one value, and survive the JSON round trip; a dead child (stack overflow) is a verdict. Exploration.",
          "Termination is observed, not proved: runaway recursion shows up as a fatal stack overflow within the reduced stack; 'admits more than one value' is decided conservatively by reflection.",
          "DESIGN.md §4 C15"),
+ "C16": ("PBT (rapid): reference expander written from the statement vs the constraint section and the generated custom-query functions",
+         "Model files with every kind of comment directive (placeholders of int and string enums, table-name words and look-alikes, REFERENCES, guards, select keys, custom queries with repeated placeholders, grouped declarations) are generated; expected statements from a reference expander are compared textually (comments and white space normalised) with the SQL output, and the generated Go custom-query functions are parsed and compared (parameter list, types, numbered SQL). Exploration.",
+         "Statements are compared after removing SQL block comments and collapsing white space; integer constants are written in decimal.",
+         "DESIGN.md §4 C16"),
  "C18": ("PBT (rapid): hostile program generator, recovered panic classified runtime.Error vs diagnostic; worker death detected through a write-ahead case",
          "Hostile-profile programs (legal unusual spellings + unsupported forms in every position, plus sql-profile model files) go through analysis and seven generator stages under recover; a runtime.Error or a dead worker is a violation, any other panic value a diagnostic. Exploration.",
          "A panic value implementing runtime.Error is a crash, anything else is an explicit diagnostic; typescript/api is exercised by C13/C14.",
